@@ -685,3 +685,77 @@ func init() {
 		},
 	})
 }
+
+// ------------------------------------------------------------------------------------------------ check-side lookups
+// The function a rule-check slot calls to obtain the rules / controllers of a resource must answer from the enforced
+// map alone. A short cut that decides "no rules" from other state (a counter of guarded resources, a flag, a cached
+// snapshot) makes enforcement depend on that state being kept exact by every writer.
+
+type lookupSpec struct {
+	fn, global, prop string
+}
+
+var checkSideLookups = []lookupSpec{
+	{"core/flow.getTrafficControllerListFor", "core/flow.tcMap", "C02"},
+	{"core/isolation.getRulesOfResource", "core/isolation.ruleMap", "C04"},
+	{"core/hotspot.getTrafficControllersFor", "core/hotspot.tcMap", "C05"},
+	{"core/circuitbreaker.getBreakersOfResource", "core/circuitbreaker.breakers", "C03"},
+	{"core/system.getRules", "core/system.ruleMap", "C07"},
+	{"core/outlier.getNodeBreakersOfResource", "core/outlier.nodeBreakers", "C20"},
+	{"core/outlier.getOutlierRuleOfResource", "core/outlier.outlierRules", "C20"},
+}
+
+func init() {
+	byProp := map[string][]lookupSpec{}
+	var props []string
+	for _, ls := range checkSideLookups {
+		if len(byProp[ls.prop]) == 0 {
+			props = append(props, ls.prop)
+		}
+		byProp[ls.prop] = append(byProp[ls.prop], ls)
+	}
+	for _, prop := range props {
+		specs := byProp[prop]
+		pkg := strings.TrimPrefix(specs[0].fn[:strings.LastIndex(specs[0].fn, ".")], "core/")
+		register(&Rule{
+			ID: "rules.lookup-unconditional." + pkg, Props: []string{"C13", prop}, Floor: len(specs),
+			Doc: "the function the " + pkg + " rule-check slot calls to obtain the rules / controllers of a resource answers from the enforced map alone: every value it returns is conditioned only on that map (the lookup itself, its ok flag, the length / iteration of what was found) and on the function's parameter - never on other package state such as a counter, flag or snapshot that every writer would have to keep exact",
+			Run: func(c *Ctx) {
+				for _, ls := range specs {
+					f := c.P.Func(ls.fn)
+					g := c.P.Global(ls.global)
+					if f == nil || g == nil {
+						c.AnchorLost(ls.fn + " / " + ls.global)
+						continue
+					}
+					reads := false
+					eachInstr(f, func(ins ssa.Instruction) {
+						if ld, ok := ins.(*ssa.UnOp); ok && ld.X == ssa.Value(g) {
+							reads = true
+						}
+					})
+					bad := ""
+					for _, r := range returnsOf(f) {
+						var cases []retCase
+						if len(r.Results) > 0 {
+							cases = splitPhiCases(r.Results[0], r.Block(), nil, 0)
+						}
+						for _, cs := range cases {
+							for k := range canonFacts(cs.block, cs.extra...) {
+								if strings.Contains(k, ls.global) || strings.Contains(k, "$idx") || strings.Contains(k, "next(") {
+									continue
+								}
+								// conditions on the parameter alone are fine
+								if !strings.Contains(k, "core/") && !strings.Contains(k, "(") {
+									continue
+								}
+								bad = k
+							}
+						}
+					}
+					c.Check(reads && bad == "", fnKey(f)+" / answers-from-enforced-map", f.Pos(), "reads %s (%v); no returned value is conditioned on other state (offending condition: %q)", ls.global, reads, bad)
+				}
+			},
+		})
+	}
+}
